@@ -34,7 +34,7 @@ CHECKS = {
             "explicit-state BFS over delivery-controlled event histories replayed on a real Connection pair, canonical-state de-duplication, invariant probes on throw-away rebuilds of every state",
             "All histories over {send k again (alone / in tuples, async or sync), drop a proxy, pass a proxy back, the peer ASKS for an object asynchronously (reference travels in a reply) and collects the result or discards it unread, deliver one frame c->s, deliver one frame s->c, close} "
             "for 1-2 objects with a bounded number of sends are enumerated to closure (the state space is finite); in every reachable state every live proxy is used, "
-            "everything is dropped and drained to quiescence, and the connection is closed.",
+            "everything is dropped and drained to quiescence, and the connection is closed; two owner-side threads using the shared object table at once (re-send vs release notice, re-send vs re-send) over all schedules with <= 2 (quick) / 3 (thorough) preemptions at line granularity.",
             "frames are processed FIFO per direction; sequence numbers abstracted from the state key; finalizers run at the reference drop (gc disabled); class cache warmed for user classes",
             "E1+E3", "DESIGN.md#c10"),
     "C15": ("model_checking",
@@ -48,6 +48,7 @@ CHECKS = {
     "C04": ("exploration",
             "exhaustive enumeration of a value grammar (encode side) and of all short byte strings / tag-class strings / seed mutations (decode side) against the real brine module, with an audit-hook monitor",
             "Every grammar value (all wire-form length classes, nesting, every non-dumpable kind) is checked for dumpable/dump/load agreement with bit-exact comparison; "
+            "after every earlier call (each grammar value, successful or refused half-way through a container) 21 probes must still encode to the bytes taken before anything else was encoded (the serializer has no memory); "
             "ALL byte strings up to length 2 (quick) or 3 (thorough), all tag-class strings up to length 4/5 and every truncation/substitution of seed encodings are decoded under an audit hook.",
             "values outside the grammar and byte strings longer than the enumerated classes are not covered; the audit hook sees CPython import/exec/compile/open/pickle events",
             "E5", "DESIGN.md#c04"),
@@ -100,7 +101,7 @@ CHECKS = {
     "C07": ("model_checking",
             "explicit-state BFS over hostile message histories sent by a reference-codec raw peer (with refuse / ignore / adaptive strategies for nested conversations) to a real default-configuration Connection, with canary, policy, table-membership, pickle, import and state monitors after every message",
             "Per reachable state the whole alphabet is applied: every handler x every id in the peer's pool (harvested, stale, never sent, lent on another connection, forged) x 25 sensitive names x labels 3/4, attribute names sent as forged references "
-            "answered adaptively, malformed requests, non-request kinds with arbitrary sequence numbers, 26 crafted exception payloads; histories to depth 3 (quick) / 4 (thorough), states de-duplicated by (ended, table by role, pool roles, proxy cache).",
+            "answered adaptively, malformed requests, non-request kinds with arbitrary sequence numbers, 26 crafted exception payloads; histories to depth 3 (quick) / 4 (thorough), states de-duplicated by (ended, table by role, pool roles, proxy cache); hidden-state pass: every ANSWERED request followed by every message sharing its name or target id.",
             "dedicated-handler special methods (__dir__, __hash__, __repr__, __str__, __call__, iteration, __instancecheck__) are not canaries; alphabet is a structured menu, not all frames",
             "E3+E5", "DESIGN.md#c07"),
     "C09": ("exploration",
